@@ -7,24 +7,24 @@ import sim as simmod
 
 # per-property workload / fault bias
 PROFILES = {
-    "C01": {"schemas": schemas.NAMES, "byz": (0.5, 1.0), "faults": 0.8,
+    "C01": {"schemas": schemas.NAMES, "byz": (0.5, 1.0), "faults": 0.8, "tenant": True,
             "mix": {"set_block_type": 10, "set_node_markup": 6, "wrap": 5, "lift": 5, "insert_node": 8,
                     "add_mark": 6, "remove_mark": 3, "type": 8, "raw_step": 6, "add_node_mark": 3,
                     "paste": 5, "paste_range": 4, "split": 4, "join": 3, "delete": 4, "delete_range": 3,
                     "set_node_attribute": 3, "backspace": 3, "set_doc_attribute": 1}},
-    "C03": {"schemas": schemas.NAMES, "byz": (0.0, 0.3), "faults": 0.5, "mix": None},
+    "C03": {"schemas": schemas.NAMES, "byz": (0.0, 0.3), "faults": 0.5, "mix": None, "tenant": True},
     # history clauses are asserted on the core schemas only (monbase.CORE_SCHEMAS); docmarks and comment
     # are here for the "under every schema" single-step clauses
     "C04": {"schemas": sorted(["basic", "list", "title", "headbody", "iso", "table", "strict"] * 3) + ["docmarks", "comment"],
             "byz": (0.0, 0.0), "faults": 1.0, "mix": None, "crash": True, "journal_p": 0.5},
-    "C05": {"schemas": schemas.NAMES, "byz": (0.0, 0.2), "faults": 0.6,
+    "C05": {"schemas": schemas.NAMES, "byz": (0.0, 0.2), "faults": 0.6, "tenant": True,
             "mix": {"set_node_attribute": 8, "set_doc_attribute": 8, "paste": 8, "paste_range": 5,
                     "insert_node": 6, "add_mark": 6, "remove_mark": 3, "add_node_mark": 4,
                     "remove_node_mark": 2, "set_block_type": 4, "wrap": 3, "lift": 3, "split": 3,
                     "type": 6, "raw_step": 6, "set_node_markup": 4, "delete": 3, "join": 2}},
-    "C08": {"schemas": schemas.NAMES, "byz": (0.0, 0.0), "faults": 0.5, "mix": None,
+    "C08": {"schemas": schemas.NAMES, "byz": (0.0, 0.0), "faults": 0.5, "mix": None, "tenant": True,
             "translate": 0.6, "undo_p": 0.2},
-    "C10": {"schemas": schemas.NAMES, "byz": (0.0, 0.3), "faults": 0.5, "clipboard": 0.1,
+    "C10": {"schemas": schemas.NAMES, "byz": (0.0, 0.3), "faults": 0.5, "clipboard": 0.1, "tenant": True,
             "mix": {"add_mark": 10, "remove_mark": 6, "mark_run": 8, "mark_sweep": 10, "raw_step": 6, "type": 8, "paste": 5,
                     "paste_range": 3, "insert_node": 3, "split": 3, "join": 2, "lift": 2, "wrap": 2,
                     "set_block_type": 3, "set_node_markup": 2, "add_node_mark": 3, "remove_node_mark": 1,
@@ -37,7 +37,7 @@ PROFILES = {
                     "paste_range": 3}},
     "C17": {"schemas": sorted(["basic", "list", "title", "headbody", "iso", "table", "strict"]),
             "byz": (0.0, 0.0), "faults": 0.3, "mix": None, "probe17": True, "spread": True},
-    "C20": {"schemas": schemas.NAMES, "byz": (0.0, 0.3), "faults": 0.4, "mix": None, "reload": 0.15},
+    "C20": {"schemas": schemas.NAMES, "byz": (0.0, 0.3), "faults": 0.4, "mix": None, "reload": 0.15, "tenant": True},
 }
 
 
@@ -114,6 +114,14 @@ def make_cfg(seed, prop, tier):
         "drain_events": 300 if prop in ("C08", "C10") else 1500,
         "fault_kinds": sorted(enabled),
     }
+    # second tenant of the same process (a document under a twin schema: same names, other mark
+    # order / permissions / defaults).  Drawn from a PRNG of its own so that the rest of the
+    # configuration of a seed does not depend on it.
+    rng2 = random.Random((seed * 7919) ^ 0x7E4A47)
+    cfg["tenant_p"] = 0.0
+    if prof.get("tenant") and rng2.random() < 0.6:
+        cfg["tenant_p"] = rng2.choice([0.08, 0.15, 0.25])
+        cfg["tenant_doc"] = gen.rand_doc(rng2, schemas.twin(schema_name), maxdepth=rng2.choice([3, 3, 4])).to_json()
     # faults stop for the last quarter of virtual activity: convergence is then a diagnostic
     cfg["quiet_after_events"] = int(max_events * 0.75)
     return cfg
